@@ -1,3 +1,4 @@
+\* reachability: both workers run a handler at the same time
 CONSTANTS
   c1 = c1
   c2 = c2
@@ -5,19 +6,18 @@ CONSTANTS
   w1 = w1
   w2 = w2
   w3 = w3
-  Clients <- CS2
-  MaxMsgs = 2
-  MaxPings = 1
+  Clients <- CS1
+  MaxMsgs = 1
+  MaxPings = 0
   Workers <- WS2
   Heartbeat = FALSE
-  Reply <- ReplyChat
-  ExtScript <- ExtBoth
-  Mode = "lockstep"
+  Reply <- ReplyNone
+  ExtScript <- ExtNone
+  Mode = "free"
   ShutdownMode = "any"
   Dev = {"InvocationInversion"}
 INIT Init
 NEXT Next
-SYMMETRY Sym
 VIEW MCView
-INVARIANTS TypeOK CurInStreams DispatchInvs DeliveryInvs
+INVARIANTS Reach_ParallelHandlers
 CHECK_DEADLOCK FALSE
